@@ -1,12 +1,232 @@
 (** Lemmas about the tax-scale model (Scale.v): basic facts shared by the C08 and C09
-    proofs. *)
-From Coq Require Import ZArith QArith Qminmax Qround List Bool Lia Lra Permutation Setoid Morphisms.
+    proofs.
+
+    Layout:
+      1. numbers ([Qlt_bool] & co as propositions)
+      2. lists ([qsum], [dot], [map2], [Forall2 Qeq])
+      3. scales up to [==] on numbers ([seq]), strictly sorted scales ([sorted])
+      4. SPECIFICATIONS: the mathematical definitions the calc functions are compared with
+      5. the matrix formulation of [calc_marginal] is the map of a scalar recursion
+      6. [marginal_rate_def]
+      7. [add_bracket]: sortedness, canonical form *)
+From Coq Require Import ZArith QArith Qminmax Qround List Bool Lia Lqa Permutation Setoid Morphisms Sorted.
 From Verif Require Import Base Scale.
 Import ListNotations.
 Open Scope Q_scope.
 
 (* ------------------------------------------------------------------------- *)
-(** * The matrix formulation is the map of the scalar one                      *)
+(** * 1. Numbers                                                               *)
+(* ------------------------------------------------------------------------- *)
+
+Lemma Qle_bool_false_iff : forall a b, Qle_bool a b = false <-> b < a.
+Proof.
+  intros a b. split; intro H.
+  - apply Qnot_le_lt. intro H1. apply Qle_bool_iff in H1. congruence.
+  - destruct (Qle_bool a b) eqn:E; [|reflexivity].
+    apply Qle_bool_iff in E. exfalso. exact (Qlt_not_le _ _ H E).
+Qed.
+
+Lemma Qlt_bool_iff : forall a b, Qlt_bool a b = true <-> a < b.
+Proof. intros. unfold Qlt_bool. rewrite negb_true_iff. apply Qle_bool_false_iff. Qed.
+
+Lemma Qlt_bool_false_iff : forall a b, Qlt_bool a b = false <-> b <= a.
+Proof. intros. unfold Qlt_bool. rewrite negb_false_iff. apply Qle_bool_iff. Qed.
+
+Lemma Qeq_bool_false_iff : forall a b, Qeq_bool a b = false <-> ~ a == b.
+Proof.
+  intros a b. split; intro H.
+  - intro E. apply Qeq_bool_iff in E. congruence.
+  - destruct (Qeq_bool a b) eqn:E; [|reflexivity]. apply Qeq_bool_iff in E. contradiction.
+Qed.
+
+Lemma Qeq_bool_refl : forall a, Qeq_bool a a = true.
+Proof. intro. apply Qeq_bool_iff. reflexivity. Qed.
+
+Lemma Qeq_bool_sym : forall a b, Qeq_bool a b = Qeq_bool b a.
+Proof.
+  intros a b. destruct (Qeq_bool a b) eqn:E1, (Qeq_bool b a) eqn:E2; try reflexivity.
+  - apply Qeq_bool_iff in E1. apply Qeq_bool_false_iff in E2. exfalso. apply E2. symmetry. exact E1.
+  - apply Qeq_bool_iff in E2. apply Qeq_bool_false_iff in E1. exfalso. apply E1. symmetry. exact E2.
+Qed.
+
+Global Instance Qlt_bool_comp : Proper (Qeq ==> Qeq ==> eq) Qlt_bool.
+Proof. intros a a' Ha b b' Hb. unfold Qlt_bool. rewrite Ha, Hb. reflexivity. Qed.
+
+(** reflection of the three comparisons, for case analyses followed by [lra] *)
+Ltac qcases :=
+  repeat match goal with
+  | H : Qlt_bool _ _ = true |- _ => apply Qlt_bool_iff in H
+  | H : Qlt_bool _ _ = false |- _ => apply Qlt_bool_false_iff in H
+  | H : Qle_bool _ _ = true |- _ => apply Qle_bool_iff in H
+  | H : Qle_bool _ _ = false |- _ => apply Qle_bool_false_iff in H
+  | H : Qeq_bool _ _ = true |- _ => apply Qeq_bool_iff in H
+  | H : Qeq_bool _ _ = false |- _ => apply Qeq_bool_false_iff in H
+  end.
+
+Lemma Qmax_case_le : forall a b, (a <= b /\ Qmax a b == b) \/ (b <= a /\ Qmax a b == a).
+Proof.
+  intros a b. destruct (Qlt_le_dec a b) as [H|H].
+  - left. split; [apply Qlt_le_weak; exact H|]. apply Q.max_r. apply Qlt_le_weak; exact H.
+  - right. split; [exact H|]. apply Q.max_l. exact H.
+Qed.
+
+Lemma Qmin_case_le : forall a b, (a <= b /\ Qmin a b == a) \/ (b <= a /\ Qmin a b == b).
+Proof.
+  intros a b. destruct (Qlt_le_dec a b) as [H|H].
+  - left. split; [apply Qlt_le_weak; exact H|]. apply Q.min_l. apply Qlt_le_weak; exact H.
+  - right. split; [exact H|]. apply Q.min_r. exact H.
+Qed.
+
+(** [qminmax]: eliminate every [Qmax]/[Qmin] of the goal by case analysis, leaving linear
+    goals for [lra]. *)
+Ltac qminmax :=
+  repeat match goal with
+  | |- context [Qmax ?a ?b] =>
+      let H := fresh "Hm" in let E := fresh "Em" in
+      destruct (Qmax_case_le a b) as [[H E]|[H E]]; rewrite E in *; clear E
+  | |- context [Qmin ?a ?b] =>
+      let H := fresh "Hm" in let E := fresh "Em" in
+      destruct (Qmin_case_le a b) as [[H E]|[H E]]; rewrite E in *; clear E
+  end.
+
+(* ------------------------------------------------------------------------- *)
+(** * 2. Lists                                                                 *)
+(* ------------------------------------------------------------------------- *)
+
+Global Instance qsum_comp : Proper (Forall2 Qeq ==> Qeq) qsum.
+Proof. intros l l' H. induction H; cbn [qsum]; [reflexivity|]. rewrite H, IHForall2. reflexivity. Qed.
+
+Lemma qsum_app : forall l m, qsum (l ++ m) == qsum l + qsum m.
+Proof. induction l as [|x l IH]; intro m; cbn [qsum app]; [ring|]. rewrite IH. ring. Qed.
+
+Lemma Forall2_Qeq_refl : forall l, Forall2 Qeq l l.
+Proof. induction l; constructor; [reflexivity|assumption]. Qed.
+
+Lemma Forall2_Qeq_sym : forall l m, Forall2 Qeq l m -> Forall2 Qeq m l.
+Proof. induction 1; constructor; [symmetry|]; assumption. Qed.
+
+Lemma Forall2_Qeq_trans : forall l m n, Forall2 Qeq l m -> Forall2 Qeq m n -> Forall2 Qeq l n.
+Proof.
+  intros l m n H. revert n. induction H; intros n Hn; inversion Hn; subst; constructor.
+  - etransitivity; eassumption.
+  - auto.
+Qed.
+
+Lemma dot_nil_l : forall v, dot [] v = 0.
+Proof. reflexivity. Qed.
+
+Lemma dot_cons : forall x u y v, dot (x :: u) (y :: v) = x * y + dot u v.
+Proof. reflexivity. Qed.
+
+Lemma map2_repeat_l : forall {A B C} (f : A -> B -> C) (a : A) (l : list B) n,
+  (length l <= n)%nat -> map2 f (repeat a n) l = map (f a) l.
+Proof.
+  intros A B C f a l. induction l as [|x l IH]; intros n Hn.
+  - destruct n; reflexivity.
+  - destruct n; cbn [length] in Hn; [lia|]. cbn [repeat map2 map]. rewrite IH by lia. reflexivity.
+Qed.
+
+Lemma map2_length : forall {A B C} (f : A -> B -> C) l m,
+  length (map2 f l m) = Nat.min (length l) (length m).
+Proof.
+  intros A B C f. induction l as [|a l IH]; intros [|b m]; cbn [map2 length]; try reflexivity.
+  rewrite IH. reflexivity.
+Qed.
+
+(** consecutive pairs (x_{i+1}, x_i) of a row: [combine (his row) (los row)] *)
+Lemma his_los_cons2 : forall (x y : ext) l,
+  combine (his (x :: y :: l)) (los (x :: y :: l)) = (y, x) :: combine (his (y :: l)) (los (y :: l)).
+Proof. reflexivity. Qed.
+
+Lemma his_los_single : forall x : ext, combine (his [x]) (los [x]) = [].
+Proof. reflexivity. Qed.
+
+(* ------------------------------------------------------------------------- *)
+(** * 3. Scales up to [==]; strictly sorted scales                             *)
+(* ------------------------------------------------------------------------- *)
+
+(** Two brackets / scales that differ only by the representation of their rationals. *)
+Definition beq (x y : Q * Q) : Prop := fst x == fst y /\ snd x == snd y.
+Definition seq (s s' : scale) : Prop := Forall2 beq s s'.
+
+Lemma beq_refl : forall x, beq x x.
+Proof. intro. split; reflexivity. Qed.
+Lemma beq_sym : forall x y, beq x y -> beq y x.
+Proof. intros x y [H1 H2]. split; symmetry; assumption. Qed.
+Lemma beq_trans : forall x y z, beq x y -> beq y z -> beq x z.
+Proof. intros x y z [H1 H2] [H3 H4]. split; etransitivity; eassumption. Qed.
+
+Lemma seq_refl : forall s, seq s s.
+Proof. induction s; constructor; [apply beq_refl|assumption]. Qed.
+Lemma seq_sym : forall s s', seq s s' -> seq s' s.
+Proof. induction 1; constructor; [apply beq_sym|]; assumption. Qed.
+Lemma seq_trans : forall s1 s2 s3, seq s1 s2 -> seq s2 s3 -> seq s1 s3.
+Proof.
+  intros s1 s2 s3 H. revert s3. induction H; intros s3 H3; inversion H3; subst; constructor.
+  - eapply beq_trans; eassumption.
+  - apply IHForall2. assumption.
+Qed.
+Global Instance seq_Equivalence : Equivalence seq.
+Proof. split; [exact seq_refl|exact seq_sym|exact seq_trans]. Qed.
+
+Lemma seq_length : forall s s', seq s s' -> length s = length s'.
+Proof. induction 1; cbn [length]; congruence. Qed.
+
+(** thresholds strictly increasing (what [add_bracket] maintains) *)
+Definition sorted (s : scale) : Prop := StronglySorted Qlt (thresholds s).
+
+Lemma sorted_nil : sorted [].
+Proof. constructor. Qed.
+
+Lemma sorted_cons_iff : forall t r s,
+  sorted ((t, r) :: s) <-> sorted s /\ Forall (fun x => t < fst x) s.
+Proof.
+  intros t r s. unfold sorted, thresholds. cbn [map fst]. split.
+  - intro H. inversion H as [|a l Hs Hf]; subst. split; [exact Hs|].
+    rewrite Forall_map in Hf. exact Hf.
+  - intros [Hs Hf]. constructor; [exact Hs|]. rewrite Forall_map. exact Hf.
+Qed.
+
+Lemma sorted_tail : forall x s, sorted (x :: s) -> sorted s.
+Proof. intros [t r] s H. apply sorted_cons_iff in H. tauto. Qed.
+
+Lemma sorted_cons2 : forall t r t' r' s, sorted ((t, r) :: (t', r') :: s) -> t < t'.
+Proof.
+  intros t r t' r' s H. apply sorted_cons_iff in H. destruct H as [_ H].
+  inversion H; subst. assumption.
+Qed.
+
+(* ------------------------------------------------------------------------- *)
+(** * 4. Specifications                                                        *)
+(* ------------------------------------------------------------------------- *)
+
+(** Length of [lo, hi) ∩ (-inf, b):  max(0, min(b, hi) - lo);  hi = +inf for the last
+    bracket. *)
+Definition overlap (lo : Q) (hi : ext) (b : Q) : Q :=
+  match hi with
+  | Fin h => Qmax 0 (Qmin b h - lo)
+  | Inf => Qmax 0 (b - lo)
+  end.
+
+(** upper end of the bracket that precedes the brackets [rest] *)
+Definition upper_end (rest : scale) : ext :=
+  match rest with
+  | [] => Inf
+  | (t', _) :: _ => Fin t'
+  end.
+
+(** Marginal-rate tax of base [b]: sum over brackets i of rate_i * |[t_i, t_i+1) ∩ (-inf, b)| *)
+Fixpoint marginal_tax (b : Q) (s : scale) : Q :=
+  match s with
+  | [] => 0
+  | (t, r) :: rest => r * overlap t (upper_end rest) b + marginal_tax b rest
+  end.
+
+(** the thresholds the code really uses: t * (factor + eps) *)
+Definition shift_thresholds (m : Q) (s : scale) : scale := map (fun tr => (m * fst tr, snd tr)) s.
+
+(* ------------------------------------------------------------------------- *)
+(** * 5. The matrix formulation is the map of the scalar one                   *)
 (* ------------------------------------------------------------------------- *)
 
 Lemma calc_marginal_cons : forall eps f rd s b bs,
@@ -18,4 +238,412 @@ Lemma calc_marginal_pointwise : forall eps f rd s bases,
 Proof.
   induction bases as [|b bs IH]; [destruct rd; reflexivity|].
   rewrite calc_marginal_cons, IH. reflexivity.
+Qed.
+
+(** the row of clipped bracket parts for one base, as a recursion over the scale;
+    [m] is the multiplier [1 * factor + eps] *)
+Fixpoint clips (m b : Q) (s : scale) : list Q :=
+  match s with
+  | [] => []
+  | (t, _) :: rest => clip1 b (emul m (upper_end rest)) (Fin (m * t)) :: clips m b rest
+  end.
+
+Lemma clip_row_clips : forall m b s n,
+  (length s <= n)%nat ->
+  clip_row (repeat b n) (map (emul m) (map Fin (thresholds s) ++ [Inf])) = clips m b s.
+Proof.
+  intros m b s. unfold clip_row. induction s as [|[t r] s IH]; intros n Hn.
+  - cbn. destruct n; reflexivity.
+  - destruct n; cbn [length] in Hn; [lia|].
+    destruct s as [|[t' r'] s'].
+    + cbn. destruct n; reflexivity.
+    + specialize (IH n ltac:(cbn [length] in *; lia)).
+      cbn [thresholds map fst app] in *. rewrite his_los_cons2.
+      cbn [repeat map2 fst snd clips upper_end emul]. f_equal. exact IH.
+Qed.
+
+Lemma calc_marginal_scalar : forall eps f s b,
+  calc_marginal eps f None s [b] = [dot (rates s) (clips (1 * f + eps) b s)].
+Proof.
+  intros. unfold calc_marginal, thresholds1, tile_T, outer. cbn [map map2].
+  rewrite clip_row_clips by lia. reflexivity.
+Qed.
+
+Lemma calc_marginal_map : forall eps f s bases,
+  calc_marginal eps f None s bases = map (fun b => dot (rates s) (clips (1 * f + eps) b s)) bases.
+Proof.
+  intros. rewrite calc_marginal_pointwise. induction bases as [|b bs IH]; [reflexivity|].
+  cbn [map concat]. rewrite calc_marginal_scalar, IH. reflexivity.
+Qed.
+
+(* ------------------------------------------------------------------------- *)
+(** * 6. marginal_rate_def                                                     *)
+(* ------------------------------------------------------------------------- *)
+
+Lemma clip1_overlap : forall b hi lo, clip1 b hi (Fin lo) == overlap lo hi b.
+Proof. intros b [h|] lo; cbn [clip1 overlap emin]; apply Q.max_comm. Qed.
+
+Lemma upper_end_shift : forall m s, upper_end (shift_thresholds m s) = emul m (upper_end s).
+Proof. intros m [|[t r] s]; reflexivity. Qed.
+
+Lemma rates_shift : forall m s, rates (shift_thresholds m s) = rates s.
+Proof. intros. unfold rates, shift_thresholds. rewrite map_map. reflexivity. Qed.
+
+Lemma dot_clips_marginal_tax : forall m b s,
+  dot (rates s) (clips m b s) == marginal_tax b (shift_thresholds m s).
+Proof.
+  intros m b s. induction s as [|[t r] s IH]; [reflexivity|].
+  cbn [rates map snd clips shift_thresholds marginal_tax fst].
+  rewrite dot_cons. fold (rates s). fold (shift_thresholds m s).
+  rewrite IH, clip1_overlap, upper_end_shift. reflexivity.
+Qed.
+
+Global Instance overlap_comp : Proper (Qeq ==> eq ==> Qeq ==> Qeq) overlap.
+Proof.
+  intros lo lo' Hlo hi hi' Hhi b b' Hb. subst hi'. destruct hi; cbn [overlap]; rewrite Hlo, Hb; reflexivity.
+Qed.
+
+Lemma overlap_hi_compat : forall lo h h' b, h == h' -> overlap lo (Fin h) b == overlap lo (Fin h') b.
+Proof. intros. cbn [overlap]. rewrite H. reflexivity. Qed.
+
+Lemma marginal_tax_seq : forall b s s', seq s s' -> marginal_tax b s == marginal_tax b s'.
+Proof.
+  intros b s s' H. induction H as [|[t r] [t' r'] s s' [Ht Hr] Hs IH]; [reflexivity|].
+  cbn [fst snd] in Ht, Hr. cbn [marginal_tax]. rewrite IH, Hr, Ht.
+  destruct Hs as [|[u q] [u' q'] s s' [Hu _] _]; cbn [upper_end]; [reflexivity|].
+  cbn [fst] in Hu. rewrite (overlap_hi_compat _ _ _ _ Hu). reflexivity.
+Qed.
+
+Lemma shift_thresholds_compat : forall m m' s, m == m' -> seq (shift_thresholds m s) (shift_thresholds m' s).
+Proof.
+  intros m m' s H. induction s as [|[t r] s IH]; constructor; [|exact IH].
+  split; cbn [fst snd]; [rewrite H|]; reflexivity.
+Qed.
+
+Lemma shift_thresholds_1 : forall s, seq (shift_thresholds 1 s) s.
+Proof.
+  induction s as [|[t r] s IH]; constructor; [|exact IH].
+  split; cbn [fst snd]; [ring|reflexivity].
+Qed.
+
+(** MarginalRateTaxScale.calc without rounding: for every scale (sorted or not), factor,
+    eps and vector of bases, element i of the result is
+      sum_k rate_k * max(0, min(b_i, t'_k+1) - t'_k)       (last bracket: max(0, b_i - t'_k))
+    with t' = t * (factor + eps). *)
+Theorem calc_marginal_def : forall eps factor s bases,
+  Forall2 Qeq (calc_marginal eps factor None s bases)
+              (map (fun b => marginal_tax b (shift_thresholds (factor + eps) s)) bases).
+Proof.
+  intros. rewrite calc_marginal_map. induction bases as [|b bs IH]; constructor; [|exact IH].
+  rewrite dot_clips_marginal_tax. apply marginal_tax_seq. apply shift_thresholds_compat. ring.
+Qed.
+
+Corollary calc_marginal_def_clean : forall s bases,
+  Forall2 Qeq (calc_marginal 0 1 None s bases) (map (fun b => marginal_tax b s) bases).
+Proof.
+  intros. eapply Forall2_Qeq_trans; [apply calc_marginal_def|].
+  induction bases as [|b bs IH]; constructor; [|exact IH].
+  apply marginal_tax_seq. eapply seq_trans; [|apply shift_thresholds_1].
+  apply shift_thresholds_compat. ring.
+Qed.
+
+(* ------------------------------------------------------------------------- *)
+(** * 7. add_bracket: sortedness and canonical form                            *)
+(* ------------------------------------------------------------------------- *)
+
+(** Sum of the rates attached to threshold [x] (up to [==]) in a scale or in a list of
+    [add_bracket] calls (both are lists of pairs). *)
+Fixpoint lookup (x : Q) (s : scale) : Q :=
+  match s with
+  | [] => 0
+  | (t, r) :: s' => (if Qeq_bool t x then r else 0) + lookup x s'
+  end.
+
+Lemma mem_thr_compat : forall t t' s, t == t' -> mem_thr t s = mem_thr t' s.
+Proof.
+  intros t t' s H. induction s as [|[u r] s IH]; [reflexivity|].
+  cbn [mem_thr]. rewrite IH, H. reflexivity.
+Qed.
+
+Lemma lookup_compat : forall t t' s, t == t' -> lookup t s == lookup t' s.
+Proof.
+  intros t t' s H. induction s as [|[u r] s IH]; [reflexivity|].
+  cbn [lookup]. rewrite IH, H. reflexivity.
+Qed.
+
+Lemma mem_thr_true_iff : forall t s, mem_thr t s = true <-> exists x, In x s /\ fst x == t.
+Proof.
+  intros t s. induction s as [|[u r] s IH]; cbn [mem_thr].
+  - split; [discriminate|intros [x [[] _]]].
+  - rewrite orb_true_iff, IH. split.
+    + intros [H|[x [Hi Hx]]].
+      * exists (u, r). split; [left; reflexivity|apply Qeq_bool_iff; exact H].
+      * exists x. split; [right; exact Hi|exact Hx].
+    + intros [x [[Hx|Hi] He]].
+      * subst x. left. apply Qeq_bool_iff. exact He.
+      * right. exists x. tauto.
+Qed.
+
+Lemma mem_thr_thresholds : forall t s, mem_thr t s = existsb (fun u => Qeq_bool u t) (thresholds s).
+Proof. intros t s. induction s as [|[u r] s IH]; [reflexivity|]. cbn. rewrite IH. reflexivity. Qed.
+
+(** everything in [s] lies strictly above [t] *)
+Definition above (t : Q) (s : scale) : Prop := Forall (fun x => t < fst x) s.
+
+Lemma above_weaken : forall t t' s, t' <= t -> above t s -> above t' s.
+Proof.
+  intros t t' s H Ha. unfold above in *. eapply Forall_impl; [|exact Ha].
+  intros x Hx. cbn beta in *. eapply Qle_lt_trans; eassumption.
+Qed.
+
+Lemma above_mem_thr : forall t s, above t s -> mem_thr t s = false.
+Proof.
+  intros t s H. induction H as [|[u r] s Hu _ IH]; [reflexivity|].
+  cbn [mem_thr fst] in *. rewrite IH, orb_false_r. apply Qeq_bool_false_iff. intro E. rewrite E in Hu.
+  exact (Qlt_irrefl _ Hu).
+Qed.
+
+Lemma above_lookup : forall t s, above t s -> lookup t s == 0.
+Proof.
+  intros t s H. induction H as [|[u r] s Hu _ IH]; [reflexivity|].
+  cbn [lookup fst] in *. rewrite IH.
+  destruct (Qeq_bool u t) eqn:E; [|ring]. qcases. rewrite E in Hu. exfalso. exact (Qlt_irrefl _ Hu).
+Qed.
+
+Lemma sorted_above : forall t r s, sorted ((t, r) :: s) -> above t s.
+Proof. intros t r s H. apply sorted_cons_iff in H. exact (proj2 H). Qed.
+
+(** ** merge_first *)
+
+Lemma merge_first_thresholds : forall t r s, thresholds (merge_first t r s) = thresholds s.
+Proof.
+  intros t r s. induction s as [|[u q] s IH]; [reflexivity|].
+  unfold thresholds in *. cbn [merge_first]. destruct (Qeq_bool u t); cbn [map fst]; [reflexivity|].
+  rewrite IH. reflexivity.
+Qed.
+
+Lemma merge_first_length : forall t r s, length (merge_first t r s) = length s.
+Proof.
+  intros. rewrite <- (map_length fst (merge_first t r s)), <- (map_length fst s).
+  fold (thresholds (merge_first t r s)). rewrite merge_first_thresholds. reflexivity.
+Qed.
+
+Lemma merge_first_sorted : forall t r s, sorted s -> sorted (merge_first t r s).
+Proof. intros. unfold sorted. rewrite merge_first_thresholds. assumption. Qed.
+
+Lemma mem_thr_merge_first : forall x t r s, mem_thr x (merge_first t r s) = mem_thr x s.
+Proof. intros. rewrite !mem_thr_thresholds, merge_first_thresholds. reflexivity. Qed.
+
+Lemma lookup_merge_first : forall x t r s,
+  mem_thr t s = true ->
+  lookup x (merge_first t r s) == lookup x s + (if Qeq_bool t x then r else 0).
+Proof.
+  intros x t r s. induction s as [|[u q] s IH]; [discriminate|].
+  cbn [mem_thr merge_first]. destruct (Qeq_bool u t) eqn:E; cbn [orb]; intro H.
+  - cbn [lookup]. qcases. rewrite <- E. destruct (Qeq_bool u x); ring.
+  - cbn [lookup]. rewrite (IH H). ring.
+Qed.
+
+(** ** insert_left *)
+
+Lemma insert_left_length : forall t r s, length (insert_left t r s) = S (length s).
+Proof.
+  intros t r s. induction s as [|[u q] s IH]; [reflexivity|].
+  cbn [insert_left]. destruct (Qlt_bool u t); cbn [length]; [rewrite IH|]; reflexivity.
+Qed.
+
+Lemma insert_left_above : forall x t r s, x < t -> above x s -> above x (insert_left t r s).
+Proof.
+  intros x t r s Hx H. induction H as [|[u q] s Hu Hs IH]; cbn [insert_left].
+  - constructor; [exact Hx|constructor].
+  - destruct (Qlt_bool u t); repeat constructor; assumption.
+Qed.
+
+Lemma insert_left_sorted : forall t r s,
+  sorted s -> mem_thr t s = false -> sorted (insert_left t r s).
+Proof.
+  intros t r s. induction s as [|[u q] s IH]; intros Hs Hm.
+  - cbn. apply sorted_cons_iff. split; [apply sorted_nil|constructor].
+  - cbn [mem_thr] in Hm. apply orb_false_iff in Hm. destruct Hm as [Hut Hm].
+    pose proof (sorted_above _ _ _ Hs) as Ha. pose proof (sorted_tail _ _ Hs) as Hs'.
+    cbn [insert_left]. destruct (Qlt_bool u t) eqn:E; qcases.
+    + apply sorted_cons_iff. split; [apply IH; assumption|].
+      apply insert_left_above; assumption.
+    + assert (Hlt : t < u).
+      { destruct (Qlt_le_dec t u) as [H|H]; [exact H|]. exfalso. apply Hut. apply Qle_antisym; assumption. }
+      apply sorted_cons_iff. split; [exact Hs|].
+      constructor; [exact Hlt|]. apply above_weaken with u; [apply Qlt_le_weak; exact Hlt|exact Ha].
+Qed.
+
+Lemma mem_thr_insert_left : forall x t r s,
+  mem_thr x (insert_left t r s) = Qeq_bool t x || mem_thr x s.
+Proof.
+  intros x t r s. induction s as [|[u q] s IH]; [reflexivity|].
+  cbn [insert_left]. destruct (Qlt_bool u t); cbn [mem_thr]; [|reflexivity].
+  rewrite IH. destruct (Qeq_bool u x), (Qeq_bool t x); reflexivity.
+Qed.
+
+Lemma lookup_insert_left : forall x t r s,
+  lookup x (insert_left t r s) == lookup x s + (if Qeq_bool t x then r else 0).
+Proof.
+  intros x t r s. induction s as [|[u q] s IH]; [cbn; ring|].
+  cbn [insert_left]. destruct (Qlt_bool u t); cbn [lookup]; [rewrite IH|]; ring.
+Qed.
+
+(** ** add_bracket *)
+
+Lemma add_bracket_sorted : forall t r s, sorted s -> sorted (add_bracket t r s).
+Proof.
+  intros t r s H. unfold add_bracket. destruct (mem_thr t s) eqn:E.
+  - apply merge_first_sorted. exact H.
+  - apply insert_left_sorted; assumption.
+Qed.
+
+Lemma mem_thr_add_bracket : forall x t r s,
+  mem_thr x (add_bracket t r s) = Qeq_bool t x || mem_thr x s.
+Proof.
+  intros x t r s. unfold add_bracket. destruct (mem_thr t s) eqn:E.
+  - rewrite mem_thr_merge_first. destruct (Qeq_bool t x) eqn:Etx; [|reflexivity].
+    qcases. rewrite <- (mem_thr_compat _ _ s Etx). rewrite E. reflexivity.
+  - apply mem_thr_insert_left.
+Qed.
+
+Lemma lookup_add_bracket : forall x t r s,
+  lookup x (add_bracket t r s) == lookup x s + (if Qeq_bool t x then r else 0).
+Proof.
+  intros x t r s. unfold add_bracket. destruct (mem_thr t s) eqn:E.
+  - apply lookup_merge_first. exact E.
+  - apply lookup_insert_left.
+Qed.
+
+Lemma add_bracket_length : forall t r s,
+  length (add_bracket t r s) = if mem_thr t s then length s else S (length s).
+Proof.
+  intros. unfold add_bracket. destruct (mem_thr t s); [apply merge_first_length|apply insert_left_length].
+Qed.
+
+(** ** a sorted scale is determined by its thresholds and its [lookup] function *)
+
+Lemma sorted_ext : forall s1 s2,
+  sorted s1 -> sorted s2 ->
+  (forall x, mem_thr x s1 = mem_thr x s2) ->
+  (forall x, lookup x s1 == lookup x s2) ->
+  seq s1 s2.
+Proof.
+  induction s1 as [|[t1 r1] s1 IH]; intros [|[t2 r2] s2] H1 H2 Hm Hl.
+  - constructor.
+  - specialize (Hm t2). cbn [mem_thr] in Hm. rewrite Qeq_bool_refl in Hm. discriminate.
+  - specialize (Hm t1). cbn [mem_thr] in Hm. rewrite Qeq_bool_refl in Hm. discriminate.
+  - pose proof (sorted_above _ _ _ H1) as A1. pose proof (sorted_above _ _ _ H2) as A2.
+    assert (Et : t1 == t2).
+    { destruct (Q_dec t1 t2) as [[H|H]|H]; [| |exact H]; exfalso.
+      - pose proof (Hm t1) as Hm1. cbn [mem_thr] in Hm1. rewrite Qeq_bool_refl in Hm1. cbn [orb] in Hm1.
+        rewrite (above_mem_thr t1 s2) in Hm1 by (apply above_weaken with t2; [apply Qlt_le_weak|]; assumption).
+        rewrite orb_false_r in Hm1. symmetry in Hm1. qcases. rewrite Hm1 in H. exact (Qlt_irrefl _ H).
+      - pose proof (Hm t2) as Hm1. cbn [mem_thr] in Hm1. rewrite Qeq_bool_refl in Hm1. cbn [orb] in Hm1.
+        rewrite (above_mem_thr t2 s1) in Hm1 by (apply above_weaken with t1; [apply Qlt_le_weak|]; assumption).
+        rewrite orb_false_r in Hm1. qcases. rewrite Hm1 in H. exact (Qlt_irrefl _ H). }
+    assert (A2' : above t1 s2) by (apply above_weaken with t2; [rewrite Et; apply Qle_refl|exact A2]).
+    constructor.
+    + split; cbn [fst snd]; [exact Et|].
+      pose proof (Hl t1) as Hl1. cbn [lookup] in Hl1.
+      rewrite Qeq_bool_refl, (above_lookup _ _ A1), (above_lookup _ _ A2') in Hl1.
+      assert (E : Qeq_bool t2 t1 = true) by (apply Qeq_bool_iff; symmetry; exact Et).
+      rewrite E in Hl1. lra.
+    + apply IH; [eapply sorted_tail; eassumption|eapply sorted_tail; eassumption| |].
+      * intro x. destruct (Qlt_le_dec t1 x) as [Hx|Hx].
+        -- pose proof (Hm x) as Hmx. cbn [mem_thr] in Hmx.
+           assert (E1 : Qeq_bool t1 x = false) by (apply Qeq_bool_false_iff; intro E; lra).
+           assert (E2 : Qeq_bool t2 x = false) by (apply Qeq_bool_false_iff; intro E; lra).
+           rewrite E1, E2 in Hmx. exact Hmx.
+        -- rewrite (above_mem_thr x s1), (above_mem_thr x s2) by (eapply above_weaken; eassumption). reflexivity.
+      * intro x. destruct (Qlt_le_dec t1 x) as [Hx|Hx].
+        -- pose proof (Hl x) as Hlx. cbn [lookup] in Hlx.
+           assert (E1 : Qeq_bool t1 x = false) by (apply Qeq_bool_false_iff; intro E; lra).
+           assert (E2 : Qeq_bool t2 x = false) by (apply Qeq_bool_false_iff; intro E; lra).
+           rewrite E1, E2 in Hlx. lra.
+        -- rewrite (above_lookup x s1), (above_lookup x s2) by (eapply above_weaken; eassumption). reflexivity.
+Qed.
+
+(** ** build: canonical form *)
+
+Definition add_call (s : scale) (tr : Q * Q) : scale := add_bracket (fst tr) (snd tr) s.
+
+Lemma build_fold : forall calls, build calls = fold_left add_call calls [].
+Proof. reflexivity. Qed.
+
+Lemma fold_add_sorted : forall calls s, sorted s -> sorted (fold_left add_call calls s).
+Proof.
+  induction calls as [|[t r] calls IH]; intros s H; [exact H|].
+  cbn [fold_left]. apply IH. apply add_bracket_sorted. exact H.
+Qed.
+
+Lemma fold_add_mem_thr : forall x calls s,
+  mem_thr x (fold_left add_call calls s) = mem_thr x s || mem_thr x calls.
+Proof.
+  intros x. induction calls as [|[t r] calls IH]; intro s; [cbn; rewrite orb_false_r; reflexivity|].
+  cbn [fold_left]. rewrite IH. unfold add_call. cbn [fst snd mem_thr]. rewrite mem_thr_add_bracket.
+  destruct (Qeq_bool t x), (mem_thr x s); reflexivity.
+Qed.
+
+Lemma fold_add_lookup : forall x calls s,
+  lookup x (fold_left add_call calls s) == lookup x s + lookup x calls.
+Proof.
+  intros x. induction calls as [|[t r] calls IH]; intro s; [cbn; ring|].
+  cbn [fold_left]. rewrite IH. unfold add_call. cbn [fst snd lookup]. rewrite lookup_add_bracket. ring.
+Qed.
+
+Lemma build_sorted : forall calls, sorted (build calls).
+Proof. intro. rewrite build_fold. apply fold_add_sorted. apply sorted_nil. Qed.
+
+Lemma build_mem_thr : forall x calls, mem_thr x (build calls) = mem_thr x calls.
+Proof. intros. rewrite build_fold, fold_add_mem_thr. reflexivity. Qed.
+
+Lemma build_lookup : forall x calls, lookup x (build calls) == lookup x calls.
+Proof. intros. rewrite build_fold, fold_add_lookup. cbn [lookup]. ring. Qed.
+
+Lemma lookup_sorted_In : forall t r s, sorted s -> In (t, r) s -> lookup t s == r.
+Proof.
+  intros t r s. induction s as [|[u q] s IH]; intros Hs Hi; [destruct Hi|]. destruct Hi as [Hi|Hi].
+  - inversion Hi; subst. cbn [lookup]. rewrite Qeq_bool_refl, (above_lookup _ _ (sorted_above _ _ _ Hs)). ring.
+  - pose proof (sorted_above _ _ _ Hs) as Ha. cbn [lookup].
+    assert (Hlt : u < t). { unfold above in Ha. rewrite Forall_forall in Ha. exact (Ha _ Hi). }
+    assert (E : Qeq_bool u t = false) by (apply Qeq_bool_false_iff; intro E; rewrite E in Hlt; exact (Qlt_irrefl _ Hlt)).
+    rewrite E, (IH (sorted_tail _ _ Hs) Hi). ring.
+Qed.
+
+Lemma mem_thr_perm : forall x c1 c2, Permutation c1 c2 -> mem_thr x c1 = mem_thr x c2.
+Proof.
+  intros x c1 c2 H. induction H as [|[t r] l l' _ IH|[t r] [t' r'] l|l l' l'' _ IH1 _ IH2]; cbn [mem_thr].
+  - reflexivity.
+  - rewrite IH. reflexivity.
+  - destruct (Qeq_bool t x), (Qeq_bool t' x); reflexivity.
+  - congruence.
+Qed.
+
+Lemma lookup_perm : forall x c1 c2, Permutation c1 c2 -> lookup x c1 == lookup x c2.
+Proof.
+  intros x c1 c2 H. induction H as [|[t r] l l' _ IH|[t r] [t' r'] l|l l' l'' _ IH1 _ IH2]; cbn [lookup].
+  - reflexivity.
+  - rewrite IH. reflexivity.
+  - ring.
+  - rewrite IH1. exact IH2.
+Qed.
+
+(** Any permutation of the same add_bracket calls builds the same scale (up to the
+    representation of the rationals: rates are summed in a different order). *)
+Theorem build_perm : forall c1 c2, Permutation c1 c2 -> seq (build c1) (build c2).
+Proof.
+  intros c1 c2 H. apply sorted_ext; try apply build_sorted.
+  - intro x. rewrite !build_mem_thr. apply mem_thr_perm. exact H.
+  - intro x. rewrite !build_lookup. apply lookup_perm. exact H.
+Qed.
+
+Lemma build_canonical_form : forall calls,
+  sorted (build calls)
+  /\ (forall t, mem_thr t (build calls) = mem_thr t calls)
+  /\ (forall t r, In (t, r) (build calls) -> r == lookup t calls).
+Proof.
+  intro calls. split; [apply build_sorted|]. split; [intro; apply build_mem_thr|].
+  intros t r Hi. rewrite <- build_lookup. symmetry. apply lookup_sorted_In; [apply build_sorted|exact Hi].
 Qed.
